@@ -1,0 +1,181 @@
+//go:build verif
+
+// Contracts for the deductive verifier in /verif (govc): document selection
+// and skipping (C01). Comment-only file, compiled only with -tags verif.
+
+package index
+
+// ---------------------------------------------------------------------------
+// C01: galloping search for the document containing a posting offset
+// ---------------------------------------------------------------------------
+
+// Its own doc comment, for every non-decreasing table of document ends: the
+// result is the least index j >= f with ends[j] > offset (len(ends) if there
+// is none) - no document between f and the result can contain the offset, and
+// the result does. Terminates (lexicographic measure over (remaining, stride)).
+//@ func index.nextFileIndex
+//@   requires len(ends) < 2147483648
+//@   requires forall a, b int :: 0 <= a && a <= b && b < len(ends) ==> ends[a] <= ends[b]
+//@   let F = f
+//@   loop 1:
+//@     invariant F <= f && (f <= len(ends) || f == F) && 1 <= d && d <= f - F + 1
+//@     invariant forall k int :: F <= k && k < f && k < len(ends) ==> ends[k] <= offset
+//@     decreases (len(ends) - f) * 8589934592 + d
+//@   ensures F <= result && (result <= len(ends) || result == F)
+//@   ensures forall k int :: F <= k && k < result && k < len(ends) ==> ends[k] <= offset
+//@   ensures result < len(ends) ==> ends[result] > offset
+//@   assigns nothing
+
+// ---------------------------------------------------------------------------
+// C01: three-valued evaluation of the match tree
+// ---------------------------------------------------------------------------
+
+// truth(m): whether node m is true on the document being evaluated (abstract:
+// atoms are decided by engines outside the contracts). decided(m, cost):
+// whether m can give a definite answer at this cost level. A node's state is
+// 0 = requires higher cost, 1 = found, 2 = none.
+//@ abstract func truth(m matchTree) bool
+//@ abstract func decided(m matchTree, cost int) bool
+//@ pure func stOf(m matchTree, cost int) int = ite(!decided(m, cost), 0, ite(truth(m), 1, 2))
+//@ pure func okKnown(known map[matchTree]bool) bool = forall m matchTree :: {mapval(known, m)} has(known, m) ==> known[m] == truth(m)
+
+// Every node kind implements this (assumed of the atoms; proved below for the
+// boolean combinators in the stronger forms stated there). Evaluation never
+// rewires the tree.
+//@ func index.matchTree.matches(cp, cost, known)
+//@   requires known != nil && okKnown(known)
+//@   ensures result == stOf(recv, cost)
+//@   ensures okKnown(known)
+//@   preserves fieldof(andMatchTree, children), fieldof(orMatchTree, children), fieldof(notMatchTree, child), fieldof(fileNameMatchTree, child), fieldof(boostMatchTree, child), anyelem("matchTree")
+
+// evalMatchTree: a definite answer is the node's truth, whether it comes from
+// the cache or from the node; the cache stays consistent; a node that can
+// decide at this cost is decided.
+//@ func index.evalMatchTree
+//@   requires mt != nil && known != nil && okKnown(known)
+//@   ensures result == 0 || (result == 1 && truth(mt)) || (result == 2 && !truth(mt))
+//@   ensures decided(mt, cost) ==> result != 0
+//@   ensures okKnown(known)
+//@   preserves fieldof(andMatchTree, children), fieldof(orMatchTree, children), fieldof(notMatchTree, child), fieldof(fileNameMatchTree, child), fieldof(boostMatchTree, child), anyelem("matchTree")
+
+// Kleene conjunction: found only if every child is true, none only if some
+// child is false, undecided only if some child is undecided and no decided
+// child is false.
+//@ func index.(*andMatchTree).matches
+//@   requires t != nil && known != nil && okKnown(known)
+//@   requires forall k int :: 0 <= k && k < len(t.children) ==> t.children[k] != nil
+//@   let C = t.children
+//@   loop 1:
+//@     invariant known != nil && okKnown(known) && t.children == C
+//@     invariant forall k int :: 0 <= k && k < len(C) ==> C[k] == old(C[k])
+//@     invariant state == 1 || state == 0
+//@     invariant state == 1 ==> (forall k int :: 0 <= k && k <= $i ==> truth(C[k]))
+//@     invariant state == 0 ==> (exists k int :: 0 <= k && k <= $i && !decided(C[k], cost))
+//@     invariant forall k int :: 0 <= k && k <= $i && decided(C[k], cost) ==> truth(C[k])
+//@     decreases len(C) - $i
+//@   ensures result == 1 ==> (forall k int :: 0 <= k && k < len(C) ==> truth(C[k]))
+//@   ensures result == 2 ==> (exists k int :: 0 <= k && k < len(C) && !truth(C[k]))
+//@   ensures result == 0 ==> (exists k int :: 0 <= k && k < len(C) && !decided(C[k], cost)) && (forall k int :: 0 <= k && k < len(C) && decided(C[k], cost) ==> truth(C[k]))
+//@   ensures result == 0 || result == 1 || result == 2
+//@   ensures okKnown(known)
+//@   preserves fieldof(andMatchTree, children), fieldof(orMatchTree, children), fieldof(notMatchTree, child), fieldof(fileNameMatchTree, child), fieldof(boostMatchTree, child), anyelem("matchTree")
+
+// Kleene disjunction.
+//@ func index.(*orMatchTree).matches
+//@   requires t != nil && known != nil && okKnown(known)
+//@   requires forall k int :: 0 <= k && k < len(t.children) ==> t.children[k] != nil
+//@   let C = t.children
+//@   loop 1:
+//@     invariant known != nil && okKnown(known) && t.children == C
+//@     invariant forall k int :: 0 <= k && k < len(C) ==> C[k] == old(C[k])
+//@     invariant state == 0 || state == 1 || state == 2
+//@     invariant state == 2 ==> (forall k int :: 0 <= k && k <= $i ==> !truth(C[k]))
+//@     invariant state == 1 ==> (exists k int :: 0 <= k && k <= $i && truth(C[k]))
+//@     invariant state == 0 ==> (exists k int :: 0 <= k && k <= $i && !decided(C[k], cost))
+//@     decreases len(C) - $i
+//@   ensures result == 2 ==> (forall k int :: 0 <= k && k < len(C) ==> !truth(C[k]))
+//@   ensures result == 1 ==> (exists k int :: 0 <= k && k < len(C) && truth(C[k]))
+//@   ensures result == 0 ==> (exists k int :: 0 <= k && k < len(C) && !decided(C[k], cost))
+//@   ensures result == 0 || result == 1 || result == 2
+//@   ensures okKnown(known)
+//@   preserves fieldof(andMatchTree, children), fieldof(orMatchTree, children), fieldof(notMatchTree, child), fieldof(fileNameMatchTree, child), fieldof(boostMatchTree, child), anyelem("matchTree")
+
+// Negation, and the two transparent wrappers.
+//@ func index.(*notMatchTree).matches
+//@   requires t != nil && t.child != nil && known != nil && okKnown(known)
+//@   ensures result == 1 ==> !truth(t.child)
+//@   ensures result == 2 ==> truth(t.child)
+//@   ensures decided(t.child, cost) ==> result != 0
+//@   ensures result == 0 || result == 1 || result == 2
+//@   ensures okKnown(known)
+
+//@ func index.(*fileNameMatchTree).matches
+//@   requires t != nil && t.child != nil && known != nil && okKnown(known)
+//@   ensures result == 1 ==> truth(t.child)
+//@   ensures result == 2 ==> !truth(t.child)
+//@   ensures decided(t.child, cost) ==> result != 0
+//@   ensures okKnown(known)
+
+//@ func index.(*boostMatchTree).matches
+//@   requires t != nil && t.child != nil && known != nil && okKnown(known)
+//@   ensures result == 1 ==> truth(t.child)
+//@   ensures result == 2 ==> !truth(t.child)
+//@   ensures decided(t.child, cost) ==> result != 0
+//@   ensures okKnown(known)
+
+// ---------------------------------------------------------------------------
+// C01: skipping to the next candidate document
+// ---------------------------------------------------------------------------
+
+// ndOf(m): the next document node m can match (a read-only query of the node's
+// cursor state; abstract for the atoms).
+//@ abstract func ndOf(m matchTree) int reads Int, Bool, Loc, Slice, Iface
+//@ func index.matchTree.nextDoc()
+//@   ensures result == ndOf(recv) && 0 <= result && result <= 4294967295
+//@   assigns nothing
+
+// A conjunction can skip to the LARGEST of its children's next documents (a
+// smaller document is excluded by the child that reported the larger one), and
+// never beyond it.
+//@ func index.(*andMatchTree).nextDoc
+//@   requires t != nil && (forall k int :: 0 <= k && k < len(t.children) ==> t.children[k] != nil)
+//@   let C = t.children
+//@   loop 1:
+//@     invariant forall k int :: 0 <= k && k <= $i ==> max >= ndOf(C[k])
+//@     invariant max == 0 || (exists k int :: 0 <= k && k <= $i && max == ndOf(C[k]))
+//@     decreases len(C) - $i
+//@   ensures forall k int :: 0 <= k && k < len(C) ==> result >= ndOf(C[k])
+//@   ensures result == 0 || (exists k int :: 0 <= k && k < len(C) && result == ndOf(C[k]))
+//@   assigns nothing
+
+// A disjunction may only skip to the SMALLEST of its children's next documents.
+//@ func index.(*orMatchTree).nextDoc
+//@   requires t != nil && (forall k int :: 0 <= k && k < len(t.children) ==> t.children[k] != nil)
+//@   let C = t.children
+//@   loop 1:
+//@     invariant forall k int :: 0 <= k && k <= $i ==> min <= ndOf(C[k])
+//@     invariant min == 4294967295 || (exists k int :: 0 <= k && k <= $i && min == ndOf(C[k]))
+//@     decreases len(C) - $i
+//@   ensures forall k int :: 0 <= k && k < len(C) ==> result <= ndOf(C[k])
+//@   ensures result == 4294967295 || (exists k int :: 0 <= k && k < len(C) && result == ndOf(C[k]))
+//@   assigns nothing
+
+// A negation can never skip.
+//@ func index.(*notMatchTree).nextDoc
+//@   ensures result == 0
+//@   assigns nothing
+
+// Branch filter: the result is the first document at or after the cursor whose
+// branch mask intersects the mask of its repository; every document skipped
+// has an empty intersection.
+//@ pure func bqStart(t *branchQueryMatchTree) int = ite(t.firstDone, t.docID + 1, 0)
+//@ func index.(*branchQueryMatchTree).nextDoc
+//@   requires t != nil && len(t.fileMasks) < 4294967295 && t.docID < 4294967295
+//@   requires len(t.repos) >= len(t.fileMasks) && (forall i int :: 0 <= i && i < len(t.repos) ==> t.repos[i] < len(t.masks))
+//@   loop 1:
+//@     invariant bqStart(t) <= i
+//@     invariant forall k int :: bqStart(t) <= k && k < i && k < len(t.fileMasks) ==> (t.masks[t.repos[k]] & t.fileMasks[k]) == 0
+//@     decreases len(t.fileMasks) - i
+//@   ensures result == 4294967295 || (bqStart(t) <= result && result < len(t.fileMasks) && (t.masks[t.repos[result]] & t.fileMasks[result]) != 0)
+//@   ensures forall k int :: bqStart(t) <= k && k < result && k < len(t.fileMasks) ==> (t.masks[t.repos[k]] & t.fileMasks[k]) == 0
+//@   assigns nothing
